@@ -42,7 +42,9 @@ class Findings(object):
     def match(self, prop, item):
         """item: {"clause", "class":{}, "symptom":{}}.  Returns the open entry that excuses it, or None."""
         for e in self.entries:
-            if e.get("property") != prop or e.get("status", "open") != "open":
+            props = e.get("property")
+            props = props if isinstance(props, list) else [props]
+            if prop not in props or e.get("status", "open") != "open":
                 continue
             if item["clause"] not in e.get("clauses", []):
                 continue
